@@ -1,7 +1,10 @@
 import PvModel.Props.C02
+import PvModel.Props.C02Program
 #print axioms Pv.C02_invariant_ok
 #print axioms Pv.C02_invariant_fail
 #print axioms Pv.C02_step_ok
 #print axioms Pv.C02_step_fail
 #print axioms Pv.C02_order_free
 #print axioms Pv.C02_no_panic
+#print axioms Pv.C02_program_exact
+#print axioms Pv.C02_program_order_free
